@@ -29,6 +29,7 @@ type verifDataInfo struct {
 	Revealed       [][]byte
 	MACOK          bool
 	CTROK          bool   // the standard library's AES-CTR reads the same plaintext
+	Weak           bool   // the D-H secret the keys derive from is 0, 1 or p-1: computable from the wire alone
 	Stream         string // identity of the AES-CTR key stream the message was enciphered with (key, counter)
 	Cipher         []byte
 }
@@ -92,6 +93,9 @@ func verifOpenOwn(c *Conversation, msg []byte) (info verifDataInfo) {
 	var v otrVersion = otrV3{}
 	if version == 2 {
 		v = otrV2{}
+	}
+	if sv := modExpP(their, new(big.Int).SetBytes(priv)); sv.Cmp(big.NewInt(1)) <= 0 || sv.Cmp(pMinusTwo) > 0 {
+		info.Weak = true
 	}
 	sk := calculateDHSessionKeys(priv, pub, their, v)
 	sk.unlock()
